@@ -188,7 +188,7 @@ def check(chk, cfg, which):
         for p in paths:
             if p.end != "return":
                 continue
-            N = nf.Norm(env=getattr(p.raw, "env", None))
+            N = an.norm_of(p)
             aggs = [t for t in walk(p.raw.ret) if t[0] == "agg" and t[1] == "seq::Seq"]
             for lv, v in p.raw.stores:
                 aggs += [t for t in walk(v) if t[0] == "agg" and t[1] == "seq::Seq"]
@@ -255,7 +255,7 @@ def check(chk, cfg, which):
                     chk.ob("I-align/mut", b["path"] + " " + s, ok, "in-place effect changes the length by a non-whole number of symbols: " + why, b["span"],
                            kind="unaligned-length")
             for lv, v in p.raw.stores:
-                N = nf.Norm(env=getattr(p.raw, "env", None))
+                N = an.norm_of(p)
                 if N(lv) == ("bits", P(1)):
                     touched = True
                     if which == "I-head":
